@@ -64,6 +64,10 @@ package check
 //@   requires aliasDepth >= 0
 //@   ensures[array-gives-its-item-type] aliasDepth <= 32 && typeis(astType, "*annotateast.ArrayType") ==> arrayType == as(astType, "*annotateast.ArrayType").ItemType
 //@   ensures[alias-keeps-the-accessor] hits("getAllTableType#0") == 0 && hits("getAllTableKeyType#0") == 0 && hits("GetAllTableType#0") == 0 && hits("GetAllTableKeyType#0") == 0
+// a union is an array type if ANY of its alternatives is (`nil|Foo[]` as much as `Foo[]|nil`): the alternatives are tried in turn and
+// the search stops only at one that yields an item type (seed C15-array-alternative-of-a-union-only-when-first)
+//@   loop range:subAst.TypeList exits-early-only-if [every-alternative-of-a-union-is-tried-until-one-is-an-array] getType != nil
+//@   at call getAllArrayType#* before assert[alternative-is-looked-through-at-the-same-depth] typeis(astType, "*annotateast.MultiType") ==> arg3 == aliasDepth
 //@ end
 
 //@ func (*AllProject).GetAllTableType
@@ -460,4 +464,12 @@ package check
 //@   props C13
 //@   at call GetLineComment#0 before assert[documentation-is-read-in-the-declaring-file-at-the-declaration-line] arg0 == a && streq(arg1, symbol.FileName) && arg2 == symbol.VarInfo.Loc.EndLine
 //@   at call GetStrComment#0 before assert[shown-text-is-the-comment-found-there] arg0 == lastresult("GetLineComment#0")
+//@ end
+
+// C09: the answer to workspace/symbol is the cut of the SORTED list of all matches; that is a function of the workspace only
+// if every worker's answer reaches the list - they arrive in completion order, so dropping "the ones after the first 200"
+// makes the answer depend on scheduling (seed C09-results-dropped-once-the-cap-is-reached)
+//@ func recvFindSymbol
+//@   props C09
+//@   ensures[every-received-answer-is-merged] recvData.returnResult != nil ==> len(results.results) == old(len(results.results)) + len(recvData.returnResult)
 //@ end
